@@ -34,9 +34,17 @@ def verify(d):
         dst = os.path.join(wt, pd, 'zz_seeded_demo_test.go')
         tests = re.findall(r'^func (Test\w+)', open(demo).read(), re.M)
         run = '^(' + '|'.join(tests) + ')$'
+        # a demonstration that needs the race detector says so in its meta.json ("go test -race ...")
+        race = []
+        try:
+            if '-race' in json.load(open(os.path.join(d, 'meta.json'))).get('demo', ''):
+                race = ['-race']
+                ENV['CGO_ENABLED'] = '1'
+        except Exception:
+            pass
         # clean tree: demo passes
         shutil.copy(demo, dst)
-        rc, out = sh(['go', 'test', '-vet=off', '-count=1', '-run', run, './' + pd], cwd=wt)
+        rc, out = sh(['go', 'test', *race, '-vet=off', '-count=1', '-run', run, './' + pd], cwd=wt)
         if rc != 0:
             return False, 'demo fails on the clean tree: ' + out[-300:]
         os.unlink(dst)
@@ -61,10 +69,10 @@ def verify(d):
             return False, 'existing tests fail with the patch: ' + ', '.join(sorted(extra))
         # patched: demo fails
         shutil.copy(demo, dst)
-        rc, out = sh(['go', 'test', '-vet=off', '-count=1', '-run', run, './' + pd], cwd=wt, timeout=300)
+        rc, out = sh(['go', 'test', *race, '-vet=off', '-count=1', '-run', run, './' + pd], cwd=wt, timeout=300)
         if rc == 0:
             return False, 'demo passes with the patch'
-        return True, 'demo passes clean, fails patched; suite at baseline patched (%s)' % pd
+        return True, 'demo passes clean, fails patched%s; suite at baseline patched (%s)' % (' (go test -race)' if race else '', pd)
     except subprocess.TimeoutExpired:
         return True, 'demo times out with the patch (hang); suite at baseline patched'
     finally:
